@@ -127,6 +127,9 @@ func shortTypeKey(t types.Type) string {
 
 // sortOf maps a Go type to an SMT sort.
 func (r *sortReg) sortOf(t types.Type) string {
+	if m, ok := t.(*MathMap); ok {
+		return "(Array " + r.sortOf(m.K) + " " + r.sortOf(m.V) + ")"
+	}
 	switch u := t.Underlying().(type) {
 	case *types.Basic:
 		switch {
